@@ -193,6 +193,10 @@ class _Interp1d:
     def __init__(self, x, fx):
         self._x = np.abs(np.asarray(x))
         self._fx = np.abs(np.asarray(fx))
+        # np.interp needs rising x: an axis given with negative values falls in magnitude
+        order = np.argsort(self._x, kind="stable")
+        self._x = self._x[order]
+        self._fx = self._fx[order]
 
     def _interp(self, x: float, y: float) -> float:
         """1D interpolation"""
